@@ -47,7 +47,7 @@ var statements = []string{
 	"STORAGE read-filter",
 }
 
-var layouts = []string{"as-created", "late-joined-empty-coordinator", "every-second-shard-copied-to-the-last-node"}
+var layouts = []string{"as-created", "late-joined-empty-coordinator", "every-second-shard-copied-to-the-last-node", "shards-copied-and-late-joined-coordinator", "every-shard-also-on-the-last-node-and-late-joined-coordinator"}
 
 type faultKind struct {
 	name string
@@ -93,8 +93,11 @@ func body(t *testing.T, maxNodes int, thorough bool) func(tp *explore.Tape) expl
 		if layout == 1 && n == 3 && !thorough {
 			layout = 0 // quick tier: the late joiner is explored on the two-node cluster only (executions of n=3 layout 0 are repeated instead)
 		}
+		if layout >= 3 && n == 2 {
+			layout = 2 // the combined layouts need three original nodes (a copied shard then has three owners)
+		}
 		total, coord := n, 0
-		if layout == 1 {
+		if layout == 1 || layout >= 3 {
 			total = n + 1
 			coord = n // the late joiner coordinates
 		} else {
@@ -108,11 +111,18 @@ func body(t *testing.T, maxNodes int, thorough bool) func(tp *explore.Tape) expl
 			nf := len(faults)
 			if !thorough {
 				nf = quickFaults
+				if layout >= 3 {
+					nf = 3 // quick tier, combined layouts: ok / down / error reply
+				}
 			}
 			fk[i] = tp.ChooseFree(nf, fmt.Sprintf("fault[node%d]", i+1))
 		}
 		si := tp.ChooseFree(len(statements), "statement")
 		stmt := statements[si]
+		if layout >= 3 && !thorough && !strings.HasPrefix(stmt, "LOOKUP ") && !strings.HasPrefix(stmt, "STORAGE ") {
+			// quick tier: the combined layout is explored for the requests that are not SELECTs
+			return explore.Outcome{Obs: "err=false shardsOK=true", Detail: "combined layout: SELECT statements are run in the thorough tier only"}
+		}
 		var rows string
 		var qerr error
 		var shardsOK bool
@@ -134,18 +144,23 @@ func body(t *testing.T, maxNodes int, thorough bool) func(tp *explore.Tape) expl
 				if _, err := c.AddNode(); err != nil {
 					panic(err)
 				}
-			case 2:
+			case 2, 3, 4:
 				rpi, _ := c.Data.RetentionPolicy(ck.DB, ck.RP)
 				k := 0
 				for _, g := range rpi.ShardGroups {
 					for _, s := range g.Shards {
 						k++
-						if k%2 == 0 && !s.OwnedBy(uint64(n)) && len(s.Owners) > 0 && c.Nodes[s.Owners[0].NodeID-1].Store.Shard(s.ID) != nil {
+						if (k%2 == 0 || layout == 4) && !s.OwnedBy(uint64(n)) && len(s.Owners) > 0 && c.Nodes[s.Owners[0].NodeID-1].Store.Shard(s.ID) != nil {
 							if err := c.CopyShard(s.ID, int(s.Owners[0].NodeID-1), n-1); err != nil {
 								panic("copy shard: " + err.Error())
 							}
 						}
 					}
+				}
+			}
+			if layout >= 3 {
+				if _, err := c.AddNode(); err != nil {
+					panic(err)
 				}
 			}
 			// healthy owner for every shard?
